@@ -171,6 +171,7 @@ func runC05(r *R) {
 	b := newStubBackend()
 	failTape := simrt.NewTape(uint64(t.Choose(1<<20)) + 77)
 	b.failEach = func(method string) bool { return failPermille > 0 && failTape.Choose(1000) < failPermille }
+	b.failUnselect = !useTLS // (under TLS the backend calls cannot be attributed to commands by step)
 	switch greet {
 	case 6:
 		b.preAuth = true
@@ -335,6 +336,7 @@ func c05Judge(r *R, peer *rawPeer, b *stubBackend, defs []*c05cmd, useTLS, insec
 	closedSeen := false
 	logoutStep, prevReplyEnd := 0, 0
 	prevReplyIdx := -1
+	undetermined := false
 	for i, o := range peer.outcomes {
 		d := defs[i]
 		if !o.Sent {
@@ -378,7 +380,27 @@ func c05Judge(r *R, peer *rawPeer, b *stubBackend, defs []*c05cmd, useTLS, insec
 		if d.authCmd && !canAuth {
 			permitted = false
 		}
+		// the backend refused to unselect in the middle of a SELECT / EXAMINE / UNAUTHENTICATE: which state that
+		// leaves is not prescribed anywhere; nothing after it is judged
+		if d.name == "SELECT" || d.name == "EXAMINE" || d.name == "UNAUTHENTICATE" {
+			refusedUnselect := false
+			for _, c := range mine {
+				if c.Method == "Unselect" && c.Err {
+					refusedUnselect = true
+				}
+			}
+			if refusedUnselect {
+				r.Probe("implicit_unselect_refused")
+				undetermined = true
+				break
+			}
+		}
 		res := o.Reply.Name
+		// the server's own idea of the state, as far as it tells: "only valid in the X state" for a command the
+		// model permits means the two have diverged
+		if permitted && res == "BAD" && strings.Contains(o.Reply.Text, "only valid in the") && !useTLS {
+			r.Violate("state-divergence", d.name+" in "+msNames[st], "command %s %s is permitted in state %s, which the transcript so far implies, but the server answered %q", o.Cmd.Tag, d.name, msNames[st], clipStr(o.Reply.Text, 120))
+		}
 		post := st
 		// a state-changing command must not report success when the backend refused it
 		if res == "OK" {
@@ -471,6 +493,9 @@ func c05Judge(r *R, peer *rawPeer, b *stubBackend, defs []*c05cmd, useTLS, insec
 	}
 	// once the connection is in the logout state (LOGOUT answered, or an unknown command before
 	// authentication answered) nothing but Close may reach the backend, whatever was pipelined
+	if undetermined {
+		return
+	}
 	if (st == msLogout || closedSeen) && !useTLS && greet != 7 {
 		if logoutStep == 0 && prevReplyEnd > 0 {
 			logoutStep = stepOf(prevReplyEnd)
